@@ -15,53 +15,84 @@ def stmtEvents (n : Nat) : List Ev := List.replicate n Ev.push ++ [Ev.lhs]
 /-- `Active::Active(const Expression&)`, `Active::operator=(const Expression&)`, `ActiveReference::operator=(Expression)`:
     reserve `E::n_active`, push one operation per active leaf, close the statement -/
 def siteScalarAssign (reserve : Nat) (nActive : Nat) : List Ev := Ev.check reserve :: stmtEvents nActive
-def siteActiveCtor (nActive : Nat) := siteScalarAssign (Active_0 nActive 0 0 0 0 0) nActive
-def siteActiveAssign (nActive : Nat) := siteScalarAssign (Active_3 nActive 0 0 0 0 0) nActive
-def siteActiveRefAssign (nActive : Nat) := siteScalarAssign (ActiveReference_2 nActive 0 0 0 0 0) nActive
+def siteActiveCtor (nActive : Nat) := siteScalarAssign (Active_0 nActive 0 0 0 0 0 0) nActive
+def siteActiveAssign (nActive : Nat) := siteScalarAssign (Active_3 nActive 0 0 0 0 0 0) nActive
+def siteActiveRefAssign (nActive : Nat) := siteScalarAssign (ActiveReference_2 nActive 0 0 0 0 0 0) nActive
 
 /-- copy assignment `x = y` (`Active::operator=(const Active&)` ×2, `ActiveReference` ×2): reserve 1, push 1 -/
 def siteCopyAssign (reserve : Nat) : List Ev := Ev.check reserve :: stmtEvents 1
-def siteActiveCopy1 := siteCopyAssign (Active_1 0 0 0 0 0 0)
-def siteActiveCopy2 := siteCopyAssign (Active_2 0 0 0 0 0 0)
-def siteActiveRefCopy1 := siteCopyAssign (ActiveReference_0 0 0 0 0 0 0)
-def siteActiveRefCopy2 := siteCopyAssign (ActiveReference_1 0 0 0 0 0 0)
+def siteActiveCopy1 := siteCopyAssign (Active_1 0 0 0 0 0 0 0)
+def siteActiveCopy2 := siteCopyAssign (Active_2 0 0 0 0 0 0 0)
+def siteActiveRefCopy1 := siteCopyAssign (ActiveReference_0 0 0 0 0 0 0 0)
+def siteActiveRefCopy2 := siteCopyAssign (ActiveReference_1 0 0 0 0 0 0 0)
 
 /-- `add_derivative_dependence(rhs, multiplier, n)`: reserve `n`, push the `k ≤ n` non-zero multipliers, close -/
 def siteAddDep (reserve : Nat) (k : Nat) : List Ev := Ev.check reserve :: stmtEvents k
-def siteActiveAddDep (n k : Nat) := siteAddDep (Active_4 0 0 n 0 0 0) k
-def siteActiveRefAddDep (n k : Nat) := siteAddDep (ActiveReference_3 0 0 n 0 0 0) k
-def siteActiveConstRefAddDep (n k : Nat) := siteAddDep (ActiveConstReference_0 0 0 n 0 0 0) k
-def siteStackAddDep (k : Nat) := siteAddDep (Stack_0 0 0 0 0 0 0) k          -- single dependence: k ≤ 1
+def siteActiveAddDep (n k : Nat) := siteAddDep (Active_4 0 0 n 0 0 0 0) k
+def siteActiveRefAddDep (n k : Nat) := siteAddDep (ActiveReference_3 0 0 n 0 0 0 0) k
+def siteActiveConstRefAddDep (n k : Nat) := siteAddDep (ActiveConstReference_0 0 0 n 0 0 0 0) k
+def siteStackAddDep (k : Nat) := siteAddDep (Stack_0 0 0 0 0 0 0 0) k          -- single dependence: k ≤ 1
 /-- `append_derivative_dependence`: reserve `n`, push `k ≤ n`, `update_lhs` (no statement event) -/
 def siteAppendDep (reserve : Nat) (k : Nat) : List Ev := Ev.check reserve :: List.replicate k Ev.push
-def siteActiveAppendDep (n k : Nat) := siteAppendDep (Active_5 0 0 n 0 0 0) k
-def siteActiveRefAppendDep (n k : Nat) := siteAppendDep (ActiveReference_4 0 0 n 0 0 0) k
-def siteActiveConstRefAppendDep (n k : Nat) := siteAppendDep (ActiveConstReference_1 0 0 n 0 0 0) k
-def siteStackAppendDep (k : Nat) := siteAppendDep (Stack_1 0 0 0 0 0 0) k
+def siteActiveAppendDep (n k : Nat) := siteAppendDep (Active_5 0 0 n 0 0 0 0) k
+def siteActiveRefAppendDep (n k : Nat) := siteAppendDep (ActiveReference_4 0 0 n 0 0 0 0) k
+def siteActiveConstRefAppendDep (n k : Nat) := siteAppendDep (ActiveConstReference_1 0 0 n 0 0 0 0) k
+def siteStackAppendDep (k : Nat) := siteAppendDep (Stack_1 0 0 0 0 0 0 0) k
 /-- `Stack::push_derivative_dependence(rhs_index, multiplier, n)` (matmul): reserve `n`, push `n` -/
-def sitePushDep (n : Nat) : List Ev := Ev.check (Stack_2 0 0 n 0 0 0) :: List.replicate n Ev.push
+def sitePushDep (n : Nat) : List Ev := Ev.check (Stack_2 0 0 n 0 0 0 0) :: List.replicate n Ev.push
 
 /-- active array ← active expression (`Array::assign_expression_<…,true,true>`, `FixedArray` and `SpecialMatrix`
     equivalents): one reservation for the whole array, then per element `nActive` pushes and a statement -/
 def siteArrayAssign (reserve : Nat) (nActive size : Nat) : List Ev :=
   Ev.check reserve :: (List.replicate size (stmtEvents nActive)).flatten
-def siteArrayAssignArray (nActive size : Nat) := siteArrayAssign (Array_1 nActive size 0 0 0 0) nActive size
-def siteArrayAssignFixed (nActive size : Nat) := siteArrayAssign (FixedArray_1 nActive size 0 0 0 0) nActive size
-def siteArrayAssignSpecial (nActive size : Nat) := siteArrayAssign (SpecialMatrix_0 nActive size 0 0 0 0) nActive size
+def siteArrayAssignArray (nActive size : Nat) := siteArrayAssign (Array_1 nActive size 0 0 0 0 0) nActive size
+def siteArrayAssignFixed (nActive size : Nat) := siteArrayAssign (FixedArray_1 nActive size 0 0 0 0 0) nActive size
+def siteArrayAssignSpecial (nActive size : Nat) := siteArrayAssign (SpecialMatrix_1 nActive size 0 0 0 0 0) nActive size
 
 /-- active array ← active scalar (`Array::operator=(const Active&)`, `FixedArray` equivalent): one operation per element -/
 def siteArrayFromScalar (reserve : Nat) (size : Nat) : List Ev :=
   Ev.check reserve :: (List.replicate size (stmtEvents 1)).flatten
-def siteArrayFromScalarArray (size : Nat) := siteArrayFromScalar (Array_0 0 size 0 0 0 0) size
-def siteArrayFromScalarFixed (size : Nat) := siteArrayFromScalar (FixedArray_0 0 size 0 0 0 0) size
+def siteArrayFromScalarArray (size : Nat) := siteArrayFromScalar (Array_0 0 size 0 0 0 0 0) size
+def siteArrayFromScalarFixed (size : Nat) := siteArrayFromScalar (FixedArray_0 0 size 0 0 0 0 0) size
 
 /-- conditional assignment `A.where(mask) = rhs` (`assign_conditional_<true>`): elements whose mask is false
     record nothing -/
 def siteConditional (reserve : Nat) (nActive : Nat) (mask : List Bool) : List Ev :=
   Ev.check reserve :: (mask.map fun m => if m then stmtEvents nActive else []).flatten
 def siteConditionalArray (nActive : Nat) (mask : List Bool) :=
-  siteConditional (Array_2 nActive mask.length 0 0 0 0) nActive mask
+  siteConditional (Array_2 nActive mask.length 0 0 0 0 0) nActive mask
 def siteConditionalFixed (nActive : Nat) (mask : List Bool) :=
-  siteConditional (FixedArray_2 nActive mask.length 0 0 0 0) nActive mask
+  siteConditional (FixedArray_2 nActive mask.length 0 0 0 0 0) nActive mask
+
+/-- active integer-vector-indexed array ← active expression (`IndexedArray::operator=(Expression)`) -/
+def siteIndexedAssign (nActive size : Nat) := siteArrayAssign (IndexedArray_1 nActive size 0 0 0 0 0) nActive size
+/-- active indexed array ← active scalar (`IndexedArray::operator=(const Active&)`) -/
+def siteIndexedFromScalar (size : Nat) := siteArrayFromScalar (IndexedArray_0 0 size 0 0 0 0 0) size
+/-- active special matrix ← active scalar: one operation per STORED element (`stored ≤ size()`) -/
+def siteSpecialFromScalar (size stored : Nat) : List Ev :=
+  Ev.check (SpecialMatrix_0 0 size 0 0 0 0 0) :: (List.replicate stored (stmtEvents 1)).flatten
+
+/-- number of `push_rhs` events of a stream -/
+def pushCount : List Ev → Nat
+  | [] => 0
+  | .push :: es => pushCount es + 1
+  | .pushIdx _ _ :: es => pushCount es + 1
+  | _ :: es => pushCount es
+
+/-- the stream uses no `push_rhs_indices` -/
+def noIdx : List Ev → Bool
+  | [] => true
+  | .pushIdx _ _ :: _ => false
+  | _ :: es => noIdx es
+
+/-- whole-array reduction of an active array (`reduce_active`): one reservation for all elements, then the
+    per-element events `elems` (at most `nActive + extra_element_cost` operations each; `product` closes a statement per
+    element behind its own `check_space(1)`), then the finishing events `tail`, each push of which sits behind its own check -/
+def siteReduceAll (reserve : Nat) (elems : List (List Ev)) (tail : List Ev) : List Ev :=
+  Ev.check reserve :: (elems.flatten ++ tail)
+
+/-- reduction along one dimension (`reduce_dimension`): one reservation, then per strip the accumulation over the reduced
+    dimension, the finishing step and the copy into the result -/
+def siteReduceDim (reserve : Nat) (strips : List (List Ev)) : List Ev := Ev.check reserve :: strips.flatten
 
 end Adept.RecBuf
